@@ -225,8 +225,8 @@ func (c *checker) bigBatchPass(workers int) {
 	}
 	// one row's images are enumerated by one worker; split the rows further by op prefix
 	type pj struct {
-		r      *run
-		ri, p  int
+		r     *run
+		ri, p int
 	}
 	var pjs []pj
 	for _, j := range jobs {
